@@ -46,9 +46,62 @@ def Step.target : Step → Option Nat
   | .chain dst .. => some dst
   | .sub dst .. => some dst
   | .query .. => none
+  | .dups .. => none
+  | .loadPm dst .. => some dst
+  | .loadPriority dst .. => some dst
+  | .loadReverse dst .. => some dst
+  | .loadJsonld dst .. => some dst
+  | .loadUpgrade dst .. => some dst
+  | .upgrade .. => none
+
+/-- split a listing entry `p1 ⟨sep⟩ p2 ⟨sep⟩ x` (separator 1114112 is not a code point) -/
+def splitEntry (e : Str) : Option (Str × Str × Str) :=
+  match e.splitOn 1114112 with
+  | [a, b, x] => some (a, b, x)
+  | _ => none
+
+def checkInit (idx : Nat) (what : String) (recs : Except Err (List Record)) (strict : Bool) (obs : Val) : List String :=
+  if !strict then [] else
+  match recs with
+  | .error e =>
+    if Val.same (.err e) obs then [] else [s!"step {idx}: {what} should fail while building the records"]
+  | .ok recs =>
+    match Spec.expectedInit recs, obs with
+    | none, .none => []
+    | none, _ => [s!"step {idx}: {what} rejects a collection in which every prefix has one owner"]
+    | some e, .err e' =>
+      if Val.errFamily e == Val.errFamily e' then []
+      else [s!"step {idx}: {what} raises {e'.name}, expected {e.name}"]
+    | some e, _ => [s!"step {idx}: {what} accepts a collection that must be rejected with {e.name}"]
 
 def checkStep (idx : Nat) (t : SlotTable) (st : Step) (obs : Val) : SlotTable × List String :=
   match st with
+  | .init dst recs _ strict => (t.put { slot := dst }, checkInit idx "Converter(...)" (.ok recs) strict obs)
+  | .loadPm dst pm _ strict =>
+    (t.put { slot := dst }, checkInit idx "from_prefix_map" (.ok (Loaders.prefixMapRecords pm)) strict obs)
+  | .loadPriority dst data =>
+    (t.put { slot := dst }, checkInit idx "from_priority_prefix_map" (Loaders.priorityRecords data) true obs)
+  | .loadReverse dst rpm =>
+    (t.put { slot := dst }, checkInit idx "from_reverse_prefix_map" (Loaders.reverseRecords rpm) true obs)
+  | .loadJsonld dst ctx =>
+    (t.put { slot := dst }, checkInit idx "from_jsonld"
+      ((Loaders.jsonldPrefixMap ctx).map Loaders.prefixMapRecords) true obs)
+  | .loadUpgrade dst pm =>
+    (t.put { slot := dst },
+      match Loaders.upgradePrefixMap pm, obs with
+      | .ok _, .none => []
+      | _, _ => [s!"step {idx}: a strict converter does not accept the records of upgrade_prefix_map"])
+  | .dups recs =>
+    match obs with
+    | .strs l =>
+      if !recs.all Spec.recOK then (t, [s!"step {idx}: invalid record accepted"]) else
+      let want := Spec.expectedListing recs
+      let got := l.filterMap splitEntry
+      if got.length != l.length then (t, [s!"step {idx}: malformed listing"])
+      else if (want.all fun w => got.any (Spec.sameClash w)) && (got.all fun g => want.any (Spec.sameClash g)) then (t, [])
+      else (t, [s!"step {idx}: the duplicate listing is not exactly the set of clashing (record, record, string) triples"])
+    | .err e => (t, if !recs.all Spec.recOK && e == .validation then [] else [s!"step {idx}: unexpected error for a listing"])
+    | _ => (t, [s!"step {idx}: no listing"])
   | .query c q =>
     let o := t.get c
     match q.meth, obs with
